@@ -155,6 +155,16 @@ CHECKS = {
              'client. Response documents, code tuples, execution logs, event sequences, wire documents, outcomes, tracer events '
              'and sleep arguments are compared pairwise; no model is involved, so any one-sided edit of the duplicated code shows.',
         note='trusted: only the comparison code; a defect present in both twins is invisible here (other checks cover that)'),
+    'C18': dict(
+        category='exploration', design_ref='DESIGN.md §3 C18',
+        technique='runtime monitor: framework test clients vs twin dispatcher, cross-integration differential',
+        text='HTTP POSTs over 19 media-type header forms (documented types with / without parameters, case variants, near misses, '
+             'unrelated, missing) x ~50 bodies from the C01-C03 corpus (incl. batches, notifications, garbage, non-UTF-8) x three '
+             'status-by-error functions x three path prefixes x root / added endpoint go through aiohttp (loop-back TestServer), '
+             'flask and werkzeug applications built by the integrations; status, recorded status-function argument, body '
+             'document, content type, empty-200, 415-and-no-execution and escaping exceptions are judged against a twin '
+             'dispatcher called directly, and the three replies to one request against each other.',
+        note='trusted: the twin dispatcher (itself judged by C01-C03); loop-back sockets must be available for the aiohttp part'),
 }
 
 NOT_BUILT_REASON = 'no check registered yet in this round (monitor under construction, see DESIGN.md §3)'
